@@ -1,25 +1,50 @@
 ---------------------------- MODULE BlockServer ----------------------------
 (* Implementation-shaped model of aiocoap's server-side block-wise support  *)
-(* (blockwise.py: Block1Spool.feed_and_take, Block2Cache.extract_or_insert, *)
+(* (interfaces.py: Resource._render_to_pipe; blockwise.py:                  *)
+(* Block1Spool.feed_and_take, Block2Cache.extract_or_insert,                *)
 (* _extract_block_key; message.py: _append_request_block, _extract_block;   *)
 (* util/asyncio/timeoutdict.py: TimeoutDict with its items / recently       *)
 (* accessed set / timer), driven by an adversarial client: blocks in order, *)
 (* restarted, repeated, skipped, of wrong size, last first, from two        *)
 (* endpoints, with any idle time relative to the state lifetime.            *)
+(*                                                                          *)
+(* One request goes through both helpers, as in _render_to_pipe: the spool  *)
+(* yields a complete request (the assembly -- the block-0 message with the  *)
+(* later payloads appended, carrying the LAST block's Block1 option and,    *)
+(* where the last block has one, its Block2 option, else block 0's), the    *)
+(* cache either has the handler render it (Block2 absent or NUM = 0) or     *)
+(* cuts a later block out of the rendering kept for the block key           *)
+(* (endpoint, method, cache-key options); the response gets the request's   *)
+(* Block1 option.  Requests without Block1 pass the spool untouched,        *)
+(* whatever payload they carry.                                             *)
+(* `Mode' selects the request alphabet (the state space of all of them      *)
+(* together is too large for one exhaustive run):                           *)
+(*   classic   PUT uploads (Block1 only) and GET downloads (Block2 only)    *)
+(*   combined  POST: uploads whose response is larger than a block, Block2  *)
+(*             on the final request block, follow-ups with and without      *)
+(*             payload / repeated Block1 option, restarts                   *)
+(*   methods   FETCH and POST with the same options: payload-bearing block-0*)
+(*             requests and follow-ups, distinct state per method           *)
+(*   sizes     GET with size exponents 0, 2 and 7 changing in mid-transfer, *)
+(*             requests without Block2, renderings beyond the 1124-byte limit    *)
+(*   all       the union (simulation)                                       *)
 (* FixGap / FixStale select which version of the code is modelled.          *)
 EXTENDS BlockServerObs, TLC
 
-CONSTANTS NRemotes, MaxNum, MaxEnv, MaxTime, Lens,
+CONSTANTS NRemotes, MaxNum, MaxEnv, MaxTime, Lens, Mode,
           FixGap,      \* TRUE: a gap/overlap in Block1 is answered 4.08 (FALSE: the ValueError -> 5.00)
           FixStale     \* TRUE: a block-0 rendering that needs no chunking drops the older cached rendering
 
 VARIABLES now,
-          spool,    \* Block1Spool._assemblies._items : key -> len
+          spool,    \* Block1Spool._assemblies._items : key -> [len, b2]
           cache,    \* Block2Cache._completes._items  : key -> [cid, len]
           tdS, tdC, \* TimeoutDict bookkeeping: [due (-1: no timer), recent]
           nreq, ninv, emit, obs
 
 vars == <<now, spool, cache, tdS, tdC, nreq, ninv, emit, obs>>
+
+MaxPayload == 1124      \* remote.maximum_payload_size (1024 plus slack: barely larger renderings are not fragmented)
+MaxSzx == 6             \* remote.maximum_block_size_exp
 
 Tok(n) == CASE n = 1 -> "k1" [] n = 2 -> "k2" [] n = 3 -> "k3" [] n = 4 -> "k4" [] n = 5 -> "k5"
             [] n = 6 -> "k6" [] OTHER -> "k7"
@@ -43,77 +68,113 @@ Init == /\ now = 0 /\ spool = << >> /\ cache = << >> /\ tdS = [due |-> -1, recen
 
 TimerDue == (tdS.due >= 0 /\ tdS.due <= now) \/ (tdC.due >= 0 /\ tdC.due <= now)
 
-(* -- a PUT block ------------------------------------------------------------- *)
-Block1(r, num, more, plen) ==
-  /\ nreq < MaxEnv
-  /\ LET key == <<r, 3, 10>>
-         tok == Tok(nreq + 1)
-         size == 16
-         b1 == <<num, more, 0>>
-         rx == Ev("rx", r, tok, 3, "req", plen, 10, b1, None, 0, num * size, 0)
-         Resp(code, blk) == Ev("tx", r, tok, code, "resp", 0, 0, blk, None, -1, -1, 0)
-     IN IF num = 0
-          THEN /\ spool' = Put(spool, key, plen)
-               \* __setitem__, and for a complete body the __getitem__ that returns it
-               /\ tdS' = IF more = 1 THEN Accessed(tdS, key) ELSE Accessed2(tdS, key)
-               /\ IF more = 1
-                    THEN /\ Step(<<rx, Resp(95, b1)>>) /\ UNCHANGED ninv
-                    ELSE /\ ninv' = ninv + 1
-                         /\ Step(<<rx, Ev("call", r, tok, 3, "", plen, 10, None, None, 0, 0, ninv + 1),
-                                   Ev("release", r, tok, 0, "", 0, 0, None, None, 0, 0, ninv + 1), Resp(68, b1)>>)
-        ELSE IF key \notin DOMAIN spool
-          THEN /\ Step(<<rx, Resp(136, None)>>) /\ UNCHANGED <<spool, tdS, ninv>>
-        ELSE IF more = 1 /\ plen # size
-          THEN /\ tdS' = Accessed(tdS, key)
-               /\ Step(<<rx, Resp(128, None)>>) /\ UNCHANGED <<spool, ninv>>
-        ELSE IF num * size # spool[key]
-          THEN /\ tdS' = Accessed(tdS, key)
-               /\ Step(<<rx, Resp(IF FixGap THEN 136 ELSE 160, None)>>) /\ UNCHANGED <<spool, ninv>>
-        ELSE /\ spool' = [spool EXCEPT ![key] = @ + plen]
-             /\ tdS' = IF more = 1 THEN Accessed(tdS, key) ELSE Accessed2(tdS, key)
-             /\ IF more = 1
-                  THEN /\ Step(<<rx, Resp(95, b1)>>) /\ UNCHANGED ninv
-                  ELSE /\ ninv' = ninv + 1
-                       /\ Step(<<rx, Ev("call", r, tok, 3, "", spool[key] + plen, 10, None, None, 0, 0, ninv + 1),
-                                 Ev("release", r, tok, 0, "", 0, 0, None, None, 0, 0, ninv + 1), Resp(68, b1)>>)
-  /\ nreq' = nreq + 1
-  /\ UNCHANGED <<now, cache, tdC>>
+(* -- Block1Spool.feed_and_take ----------------------------------------------------- *)
+\* -> [res (complete / continue / e408 / e400 / e500), spool, td, blen (assembled payload), b2 (the Block2
+\*     option of the request handed on)]
+Feed(key, b1, plen, b2) ==
+  LET R(res, sp, td, blen, bb) == [res |-> res, spool |-> sp, td |-> td, blen |-> blen, b2 |-> bb]
+      num == b1[1]
+      more == b1[2]
+      size == Size(b1[3])
+  IN IF b1 = None THEN R("complete", spool, tdS, plen, b2)
+     ELSE IF num = 0
+       THEN \* __setitem__, and for a complete body the __getitem__ that returns it
+            R(IF more = 1 THEN "continue" ELSE "complete", Put(spool, key, [len |-> plen, b2 |-> b2]),
+              IF more = 1 THEN Accessed(tdS, key) ELSE Accessed2(tdS, key), plen, b2)
+     ELSE IF key \notin DOMAIN spool THEN R("e408", spool, tdS, 0, None)
+     ELSE IF more = 1 /\ plen # size THEN R("e400", spool, Accessed(tdS, key), 0, None)
+     ELSE IF num * size # spool[key].len THEN R(IF FixGap THEN "e408" ELSE "e500", spool, Accessed(tdS, key), 0, None)
+     ELSE LET nb2 == IF more = 0 /\ b2 # None THEN b2 ELSE spool[key].b2
+          IN R(IF more = 1 THEN "continue" ELSE "complete",
+               [spool EXCEPT ![key] = [len |-> @.len + plen, b2 |-> nb2]],
+               IF more = 1 THEN Accessed(tdS, key) ELSE Accessed2(tdS, key), spool[key].len + plen, nb2)
 
-(* -- a GET with Block2 -------------------------------------------------------- *)
-Block2(r, num, L) ==
+(* -- one request: Resource._render_to_pipe ---------------------------------------------- *)
+\* ck 10: a resource whose PUT handler answers 2.04 with an empty rendering; else 2.05 with L bytes
+Req(r, code, ck, b1, plen, b2, L) ==
   /\ nreq < MaxEnv
-  /\ LET key == <<r, 1, 20>>
+  /\ LET key == <<r, code, ck>>
          tok == Tok(nreq + 1)
-         size == 16
-         rx == Ev("rx", r, tok, 1, "req", 0, 20, None, <<num, 0, 0>>, -1, -1, 0)
-         Resp(code, blk, plen, cid, off) == Ev("tx", r, tok, code, "resp", plen, 0, None, blk, cid, off, 0)
-     IN IF num = 0
-          THEN LET i == ninv + 1 IN
-               /\ ninv' = i
-               /\ IF L > size
-                    THEN /\ cache' = Put(cache, key, [cid |-> i, len |-> L])
-                         /\ tdC' = Accessed(tdC, key)
-                         /\ Step(<<rx, Ev("call", r, tok, 1, "", 0, 20, None, None, 0, 0, i),
-                                   Ev("release", r, tok, 0, "", L, 0, None, None, 0, 0, i),
-                                   Resp(69, <<0, 1, 0>>, size, i, 0)>>)
-                    ELSE /\ cache' = IF FixStale THEN Drop(cache, {key}) ELSE cache
-                         /\ UNCHANGED tdC
-                         /\ Step(<<rx, Ev("call", r, tok, 1, "", 0, 20, None, None, 0, 0, i),
-                                   Ev("release", r, tok, 0, "", L, 0, None, None, 0, 0, i),
-                                   Resp(69, None, L, i, 0)>>)
-        ELSE /\ UNCHANGED ninv
-             /\ IF key \notin DOMAIN cache
-                  THEN /\ Step(<<rx, Resp(136, None, 0, -1, -1)>>) /\ UNCHANGED <<cache, tdC>>
-                  ELSE LET c == cache[key]
-                           off == num * size
-                       IN /\ tdC' = Accessed(tdC, key)
-                          /\ UNCHANGED cache
-                          /\ IF off >= c.len
-                               THEN Step(<<rx, Resp(128, None, 0, -1, -1)>>)
-                               ELSE Step(<<rx, Resp(69, <<num, IF off + size < c.len THEN 1 ELSE 0, 0>>,
-                                                    Min(size, c.len - off), c.cid, off)>>)
+         okcode == IF ck = 10 THEN 68 ELSE 69
+         rx == Ev("rx", r, tok, code, "req", plen, ck, b1, b2, -1, -1, 0)
+         Err(c) == Ev("tx", r, tok, c, "resp", 0, 0, None, None, -1, -1, 0)
+         f == Feed(key, b1, plen, b2)
+     IN /\ spool' = f.spool
+        /\ tdS' = f.td
+        /\ CASE f.res = "continue" ->
+                  /\ Step(<<rx, Ev("tx", r, tok, 95, "resp", 0, 0, b1, None, -1, -1, 0)>>)
+                  /\ UNCHANGED <<ninv, cache, tdC>>
+             [] f.res = "e408" -> Step(<<rx, Err(136)>>) /\ UNCHANGED <<ninv, cache, tdC>>
+             [] f.res = "e400" -> Step(<<rx, Err(128)>>) /\ UNCHANGED <<ninv, cache, tdC>>
+             [] f.res = "e500" -> Step(<<rx, Err(160)>>) /\ UNCHANGED <<ninv, cache, tdC>>
+             [] OTHER ->
+                  \* Block2Cache.extract_or_insert on the complete request
+                  IF f.b2 = None \/ f.b2[1] = 0
+                    THEN LET i == ninv + 1
+                             call == Ev("call", r, tok, code, "", f.blen, ck, None, None, 0, 0, i)
+                             rel == Ev("release", r, tok, 0, "", L, 0, None, None, 0, 0, i)
+                             eff == IF f.b2 = None THEN <<0, 0, MaxSzx>> ELSE f.b2
+                             size == Size(eff[3])
+                             chunk == L > MaxPayload \/ (f.b2 # None /\ L > Size(f.b2[3]))
+                         IN /\ ninv' = i
+                            /\ IF chunk
+                                 THEN /\ cache' = Put(cache, key, [cid |-> i, len |-> L])
+                                      /\ tdC' = Accessed(tdC, key)
+                                      /\ Step(<<rx, call, rel,
+                                                Ev("tx", r, tok, okcode, "resp", Min(size, L), 0, b1,
+                                                   <<0, IF size < L THEN 1 ELSE 0, eff[3]>>, i, 0, 0)>>)
+                                 ELSE /\ cache' = IF FixStale THEN Drop(cache, {key}) ELSE cache
+                                      /\ UNCHANGED tdC
+                                      /\ Step(<<rx, call, rel, Ev("tx", r, tok, okcode, "resp", L, 0, b1, None, i, 0, 0)>>)
+                    ELSE /\ UNCHANGED ninv
+                         /\ IF key \notin DOMAIN cache
+                              THEN /\ Step(<<rx, Err(136)>>) /\ UNCHANGED <<cache, tdC>>
+                              ELSE LET c == cache[key]
+                                       size == Size(f.b2[3])
+                                       off == f.b2[1] * size
+                                   IN /\ tdC' = Accessed(tdC, key)     \* __getitem__, then __setitem__ of the same value
+                                      /\ UNCHANGED cache
+                                      /\ IF off >= c.len
+                                           THEN Step(<<rx, Err(128)>>)
+                                           ELSE Step(<<rx, Ev("tx", r, tok, 69, "resp", Min(size, c.len - off), 0, b1,
+                                                              <<f.b2[1], IF off + size < c.len THEN 1 ELSE 0, f.b2[3]>>,
+                                                              c.cid, off, 0)>>)
   /\ nreq' = nreq + 1
-  /\ UNCHANGED <<now, spool, tdS>>
+  /\ UNCHANGED now
+
+(* -- the request alphabets ---------------------------------------------------------------- *)
+\* (the length of the rendering is a choice of the environment only where the handler is going to be invoked;
+\*  `Rl' keeps the other requests from being generated once per length)
+B1s == {<<n, m, 0>> : n \in 0..MaxNum, m \in {0, 1}}
+Plens == {16, 5}
+Rl(b1, b2, Ls) == IF (b1 = None \/ b1[2] = 0) /\ (b2 = None \/ b2[1] = 0) THEN Ls ELSE {0}
+Classic(r) ==
+  \/ \E b1 \in B1s, plen \in Plens : Req(r, 3, 10, b1, plen, None, 0)
+  \/ \E num \in 0..MaxNum : \E L \in Rl(None, <<num, 0, 0>>, Lens) : Req(r, 1, 20, None, 0, <<num, 0, 0>>, L)
+Combined(r) ==
+  \* request blocks; the last one (and, for early negotiation, the first one) may carry Block2 0/0/0
+  \/ \E b1 \in B1s, plen \in Plens, b2 \in {None, <<0, 0, 0>>} : \E L \in Rl(b1, b2, Lens) :
+        (b2 # None => (b1[2] = 0 \/ b1[1] = 0)) /\ Req(r, 2, 20, b1, plen, b2, L)
+  \* follow-ups for later blocks: bare, with a payload, repeating a (single-block / final) Block1 option
+  \/ \E num \in 1..MaxNum :
+        \/ Req(r, 2, 20, None, 0, <<num, 0, 0>>, 0)
+        \/ Req(r, 2, 20, None, 5, <<num, 0, 0>>, 0)
+        \/ Req(r, 2, 20, <<0, 0, 0>>, 5, <<num, 0, 0>>, 0)
+        \/ Req(r, 2, 20, <<1, 0, 0>>, 5, <<num, 0, 0>>, 0)
+Methods(r) ==
+  \E code \in {2, 5}, num \in 0..MaxNum, plen \in {0, 5} : \E L \in Rl(None, <<num, 0, 0>>, Lens) :
+     Req(r, code, 20, None, plen, <<num, 0, 0>>, L)
+Sizes(r) ==
+  \/ \E num \in 0..MaxNum, s \in {0, 2, 7} : \E L \in Rl(None, <<num, 0, s>>, Lens \cup {1200}) :
+        Req(r, 1, 20, None, 0, <<num, 0, s>>, L)
+  \/ \E L \in Lens \cup {1200} : Req(r, 1, 20, None, 0, None, L)
+
+Request(r) ==
+  CASE Mode = "classic" -> Classic(r)
+    [] Mode = "combined" -> Combined(r)
+    [] Mode = "methods" -> Methods(r)
+    [] Mode = "sizes" -> Sizes(r)
+    [] OTHER -> Classic(r) \/ Combined(r) \/ Methods(r) \/ Sizes(r)
 
 (* -- TimeoutDict._tick --------------------------------------------------------- *)
 TickS == /\ tdS.due = now
@@ -135,8 +196,7 @@ End == /\ nreq = MaxEnv /\ (IF emit = << >> THEN TRUE ELSE emit[Len(emit)].k # "
        /\ UNCHANGED <<now, spool, cache, tdS, tdC, nreq, ninv>>
 
 Next == \/ TickS \/ TickC
-        \/ (~TimerDue /\ \E r \in 1..NRemotes, num \in 0..MaxNum, more \in {0, 1}, plen \in {16, 5} : Block1(r, num, more, plen))
-        \/ (~TimerDue /\ \E r \in 1..NRemotes, num \in 0..MaxNum, L \in Lens : Block2(r, num, L))
+        \/ (~TimerDue /\ \E r \in 1..NRemotes : Request(r))
         \/ Tick \/ End
 
 Spec == Init /\ [][Next]_vars
@@ -145,6 +205,10 @@ NoBad == obs.bad = {}
 \* (what the monitor regards as certainly alive is in the tables)
 AliveIsPresent ==
   /\ \A k \in DOMAIN obs.asm : (Alive(obs.asm[k], now) = "yes" /\ ~obs.asm[k].amb) => k \in DOMAIN spool
-  /\ \A k \in DOMAIN obs.rend : (Alive(obs.rend[k], now) = "yes" /\ ~obs.rend[k].amb /\ obs.rend[k].len > 16) => k \in DOMAIN cache
-View == <<now, spool, cache, tdS, tdC, nreq, ninv, obs>>
+  /\ \A k \in DOMAIN obs.rend : (Alive(obs.rend[k], now) = "yes" /\ ~obs.rend[k].amb /\ obs.rend[k].chunked) => k \in DOMAIN cache
+\* and what is in the cache is the rendering the monitor regards as the latest one of that key
+CacheIsLatest ==
+  \A k \in DOMAIN cache : (k \in DOMAIN obs.rend /\ ~obs.rend[k].amb /\ obs.rend[k].chunked)
+                           => (cache[k].cid % 256 = obs.rend[k].cid /\ cache[k].len = obs.rend[k].len)
+View == <<now, spool, cache, tdS, tdC, nreq, ninv, [obs EXCEPT !.cnt = 0]>>
 =============================================================================
